@@ -91,9 +91,46 @@ def clone_case(case):
     return dict(reproduced=bool(violated), violated=violated)
 
 
+def prefix_trait_unhashable_case(case):
+    """C18: reading an undeclared attribute through a str-subclass name whose __hash__ starts failing at some point must
+    end in an exception or a value, never in a crash.  The point of failure is swept (child process per point)."""
+    import subprocess
+    prog = r"""
+import sys
+from traits.api import HasTraits, Int, push_exception_handler
+push_exception_handler(lambda *a: None)
+class Flaky(str):
+    calls = 0
+    limit = int(sys.argv[1])
+    def __hash__(self):
+        Flaky.calls += 1
+        if Flaky.calls > Flaky.limit:
+            raise ZeroDivisionError("hash fails")
+        return str.__hash__(self)
+    def __eq__(self, other):
+        return str.__eq__(self, other)
+class A(HasTraits):
+    x = Int
+a = A()
+try:
+    getattr(a, Flaky("undeclared_attr"))
+    print("RESULT value")
+except BaseException as e:
+    print("RESULT raised", type(e).__name__)
+"""
+    violated, seen = [], {}
+    for limit in range(0, 14):
+        p = subprocess.run([sys.executable, "-c", prog, str(limit)], capture_output=True, text=True, timeout=60)
+        seen[limit] = p.returncode
+        if p.returncode < 0:
+            violated.append("getattr(obj, name) with a str-subclass name whose __hash__ raises from its call number %d on: "
+                            "interpreter killed by signal %d" % (limit + 1, -p.returncode))
+    return dict(reproduced=bool(violated), violated=violated[:3], observed=seen)
+
+
 def main():
     case = json.loads(sys.stdin.read())
-    out = {"get_trait": get_trait_case, "clone": clone_case}[case["family"]](case)
+    out = {"get_trait": get_trait_case, "clone": clone_case, "prefix_trait_unhashable": prefix_trait_unhashable_case}[case["family"]](case)
     print(json.dumps(out, default=repr))
 
 
